@@ -378,6 +378,25 @@ iteration order -/
 theorem C01_voluntary_first_trace {c : Conf} (h : Reach C O st0 script picks c) : VolOK c.tr :=
   (invV_reach h).ok
 
+/-! ### TCP and WebSocket framing
+
+`websocket.Negotiator` is the same negotiator with another header syntax. The model is the same
+machine for both framings: `Peer.hdr` is a header *of the session's framing*, every theorem of
+this file holds for both. What the framing changes: -/
+
+/-- **a header of the other framing is never accepted**: when the machine reads a stream header
+(receiver first, initiator after its own header) and the peer sends a well-formed header of the
+other framing — `<open/>` on a TCP session, `<stream:stream>` on a WebSocket session — the run
+ends with a protocol error -/
+theorem C01_header_framing (c : Conf) (next : Pc) (r : List Peer) (hs : c.script = .hdrOther :: r)
+    (hc : O.cancel c.tr = false) (hf : O.fault c.io = false) (hb : O.block c.io = false) :
+    (readHdr O c next).pc = .fail .proto := by
+  unfold readHdr
+  simp [hs, hc, hf, hb]
+
+/-- … and where a selection is expected it is refused like any other unadvertised element -/
+theorem C01_header_as_selection : (Peer.hdrOther).selName = some (⟨nsStream, 3⟩, false, true) := rfl
+
 /-! ### the tee (`StreamConfig.TeeIn` / `TeeOut`) -/
 
 /-- **the tee is transparent**: a session whose configuration carries a tee (`runT true`: every
